@@ -333,6 +333,7 @@ fn spec_root(e: &ExpressionTree, ev: &dyn Fn(&ExpressionTree) -> Ev) -> (Expect,
                 (sqlgrep::model::Value::String(x), sqlgrep::model::Value::String(y)) => x.chars().cmp(y.chars()),
                 (sqlgrep::model::Value::Timestamp(x), sqlgrep::model::Value::Timestamp(y)) => (x.timestamp(), x.timestamp_subsec_nanos()).cmp(&(y.timestamp(), y.timestamp_subsec_nanos())),   // by instant (timestamp_nanos_opt is None beyond 1677..2262)
                 (sqlgrep::model::Value::Bool(x), sqlgrep::model::Value::Bool(y)) => x.cmp(y),
+                (sqlgrep::model::Value::Interval(x), sqlgrep::model::Value::Interval(y)) => x.cmp(y),   // by duration
                 (sqlgrep::model::Value::Timestamp(_), sqlgrep::model::Value::String(_)) | (sqlgrep::model::Value::String(_), sqlgrep::model::Value::Timestamp(_)) => return (Unspecified, ""),
                 (a, b) if a.value_type() == b.value_type() => return (Unspecified, ""),
                 _ => return (Error, "D04:cmp-type-mismatch"),
